@@ -176,7 +176,8 @@ class C06(Prop):
     id = "C06"
     props_file = "Props/C06.v"
     preamble = ("From Coq Require Import List ZArith.\nImport ListNotations.\n"
-                "From PP Require Import Model.C05 Model.C06.\n")
+                "From PP Require Import Model.C05 Model.C06 Model.C07 Model.C06_schur "
+                "Proofs.C06_schur.\n")
     n_cases = (120, 2400)
     design_ref = "DESIGN.md §5 C06"
     level_text = ("Coq theorems over an executable transcription of EquationSystem's equation "
@@ -193,7 +194,15 @@ class C06(Prop):
                   "assembled_equation_indices are consecutive ranges partitioning 0..n_rows-1 in "
                   "that order (empty blocks included); residual-only assembly returns the residual "
                   "of the Jacobian assembly and leaves the reported indices untouched; the parser "
-                  "rejects exactly unknown equations / grids outside an equation's domain. Tie: "
+                  "rejects exactly unknown equations / grids outside an equation's domain. The "
+                  "same slice theorem holds over histories that also contain update_equation "
+                  "calls and Schur assemblies (C06_rows_histories); update_equation = remove + "
+                  "set with the stored grids / size info as defaults, the equation moves to the "
+                  "end of the insertion order (C06_update); after a successful "
+                  "assemble_schur_complement_system the reported indices are exactly those of "
+                  "assemble(equations=primary_equations) (C06_schur_indices, repaired code); the "
+                  "size hypothesis is decided by a checker proved sound and complete "
+                  "(C06_sized_checker) and evaluated on every generated history. Tie: "
                   "real EquationSystems with random integer-valued linear and nonlinear AD "
                   "equations on generated md-grids; Coq recomputes every assembled matrix, "
                   "right-hand side and index report from the evaluated equations and compares.")
@@ -203,8 +212,9 @@ class C06(Prop):
                   "theorems assume each operator yields as many rows as set_equation was told "
                   "(set_equation does not check this; mismatching operators are in the tie only). "
                   "Name string and Operator object as equation reference are not distinguished "
-                  "(the code resolves both to the name first). Not modelled: TypeError for "
-                  "unparsable items, update_equation, SubSystem, the `state` argument.")
+                  "(the code resolves both to the name first). The `state` argument of assemble is exercised with "
+                  "the stored values only (one evaluation table per case). Not modelled: "
+                  "TypeError for unparsable items, SubSystem.")
     technique = ("Coq proof (invariant over operation histories + refinement of the parser to a "
                  "last-mention specification) + vm_compute execution correspondence")
     rule = ("random systems: 2-4 variables (cell/face/node dofs, subdomains and interfaces) on 16 "
@@ -214,7 +224,11 @@ class C06(Prop):
             "equations without grids, zero-row equations; histories of set/remove/assemble with "
             "restrictions as list / dict / list with dict items, repeated and overriding "
             "mentions, empty selections, Operator objects as keys, variable subsets (objects, "
-            "names, md-variables, duplicates, empty), residual-only calls; error inputs (unknown "
+            "names, md-variables, duplicates, empty), residual-only calls, calls with an explicit state vector (overwritten afterwards); "
+            "update_equation with default / new grids and size info, unknown names and grids "
+            "outside the md-grid (equation lost); Schur assemblies with an all-zero inverter "
+            "whose primary variables are searched such that the secondary block is square, "
+            "assembled_equation_indices read after every call; error inputs (unknown "
             "names, grids outside the domain, duplicate names, duplicate/unknown grids, stale "
             "variables, operators with a wrong number of rows); non-trivial = a successful "
             "Jacobian assembly restricted to a proper subset of rows with at least two "
@@ -287,6 +301,24 @@ class C06(Prop):
             else:
                 items.append(["dict", restr(2)])
         return ["list", items]
+
+    def _schur_op(self, rng, sh, lay):
+        """a Schur assembly; the primary variables are chosen such that the secondary block is
+        square whenever a few random tries find such a choice (otherwise an error path)"""
+        pe = self._eqarg(rng, sh, bad=rng.random() < 0.05)
+        kept = sh.kept(pe)
+        pv = self._vrefs(rng, lay)
+        if kept != "invalid" and kept:
+            rows_p, _ = sh.rows(kept)
+            _, ntot = sh.offsets()
+            want = lay.total - (ntot - len(rows_p))     # number of primary columns
+            atoms = list(range(len(lay.atoms)))
+            for _ in range(40):
+                sub = rng.sample(atoms, rng.randint(1, len(atoms)))
+                if sum(lay.size(i) for i in sub) == want and 0 < want < lay.total:
+                    pv = [["id", i] for i in sub]
+                    break
+        return ["schur", pe, pv]
 
     def _vrefs(self, rng, lay, stale=None):
         r = rng.random()
@@ -384,13 +416,52 @@ class C06(Prop):
                     ops.append(["remove", name])
                     sh.eqs.pop(name, None)
                     dirty = True
+                elif r < 0.44 and not mismatch:
+                    # update_equation: known name (default or new grids / size info) or unknown
+                    known = bool(sh.eqs) and rng.random() < 0.85
+                    name = rng.choice(list(sh.eqs)) if known else rng.choice(
+                        [i for i in range(len(ENAMES)) if i not in sh.eqs])
+                    grids, info = None, None
+                    if known:
+                        _, g0, i0 = sh.eqs[name]
+                        kind = g0[0][0] if g0 else ("intf" if intfs and rng.random() < 0.3 else "sd")
+                        ng = len(intfs) if kind == "intf" else len(sds)
+                        newg, newi = g0, list(i0)
+                        if rng.random() < 0.5:
+                            grids = [[kind, i] for i in rng.sample(range(ng), rng.randint(0, ng))]
+                            if rng.random() < 0.08:
+                                grids.append([kind, ng + 1])       # not in the md-grid
+                            newg = grids
+                        if rng.random() < 0.4:
+                            info = [rng.choice([0, 1, 1, 2]), 0, 0]
+                            newi = info
+                        okg = [g for g in newg if g[1] < ng]
+                        rows = sum(gsize(sds, intfs, g[0], g[1], newi)
+                                   for g in {tuple(g) for g in okg})
+                        valid = len(okg) == len(newg)
+                    else:
+                        if rng.random() < 0.5:
+                            grids = [["sd", 0]]
+                        if rng.random() < 0.5:
+                            info = [1, 0, 0]
+                        rows, valid = rng.randint(0, 3), False
+                    operators.append(self._operator(rng, lay, rows))
+                    ops.append(["update", name, len(operators) - 1, grids, info])
+                    if known:
+                        del sh.eqs[name]
+                        if valid:
+                            sh.eqs[name] = (len(operators) - 1, newg, tuple(newi))
+                    dirty = True
+                elif r < 0.54 and sh.eqs and not mismatch:
+                    ops.append(self._schur_op(rng, sh, lay))
                 else:
                     if dirty:
                         ops.append(["asm", True, None, None])
                         dirty = False
                     bad = rng.random() < 0.08
                     ops.append(["asm", rng.random() < 0.75, self._eqarg(rng, sh, bad),
-                                self._vrefs(rng, lay, stale)])
+                                self._vrefs(rng, lay, stale)]
+                               + ([True] if rng.random() < 0.25 else []))   # state= given
             yield {"grid": spec, "sds": sds, "intfs": intfs, "vars": vars_, "junk": junk,
                    "state": state, "operators": operators, "ops": ops}
 
@@ -539,17 +610,44 @@ class C06(Prop):
                     es.remove_equation(ENAMES[o[1]])
                     registered.pop(o[1], None)
                     outs.append([["done"], indices()])
+                elif o[0] == "update":
+                    _, name, opid, grids, info = o
+                    e = self._expr(es, created, case["operators"][opid])
+                    try:
+                        es.update_equation(
+                            ENAMES[name], e,
+                            grids=None if grids is None else [grid(g) for g in grids],
+                            equations_per_grid_entity=None if info is None else dict(
+                                zip(("cells", "faces", "nodes"), info)))
+                        registered[name] = e
+                    except Exception:
+                        if ENAMES[name] not in es.equations:
+                            registered.pop(name, None)
+                        raise
+                    outs.append([["done"], indices()])
+                elif o[0] == "schur":
+                    es.assemble_schur_complement_system(
+                        eqarg(o[1]), vrefs(o[2]), inverter=lambda M: sps.csr_matrix(M.shape))
+                    outs.append([["done"], indices()])
                 else:
-                    _, jac, a, refs = o
+                    _, jac, a, refs = o[:4]
+                    kw = {}
+                    if len(o) > 4 and o[4]:
+                        # the state vector handed over explicitly (same values as stored);
+                        # overwritten afterwards (aliasing probe)
+                        st_arr = np.array(case["state"], dtype=float)
+                        kw = {"state": st_arr}
                     if jac:
-                        A, b = es.assemble(equations=eqarg(a), variables=vrefs(refs))
+                        A, b = es.assemble(equations=eqarg(a), variables=vrefs(refs), **kw)
                         assert A.shape[0] == b.size
                         outs.append([["jac", self._sparse_rows(A), self._ints(b),
                                       int(A.shape[1])], indices()])
                     else:
                         b = es.assemble(evaluate_jacobian=False, equations=eqarg(a),
-                                        variables=vrefs(refs))
+                                        variables=vrefs(refs), **kw)
                         outs.append([["res", self._ints(b)], indices()])
+                    if kw:
+                        kw["state"][:] = 977.0
             except (KeyError, ValueError, AssertionError, IndexError) as e:
                 outs.append([["err", ERRS[[t for t in ERRS if isinstance(e, t)][0]]],
                              indices()])
@@ -593,8 +691,43 @@ class C06(Prop):
                     full = None
                 elif o[1] in sh.eqs:
                     return where + f"removal of a known equation was rejected: {out}"
+            elif o[0] == "update":
+                _, name, opid, grids, info = o
+                if name in sh.eqs:
+                    _, g0, i0 = sh.eqs[name]
+                    newg = g0 if grids is None else grids
+                    newi = tuple(i0 if info is None else info)
+                    valid = (all(g[1] < (len(sds) if g[0] == "sd" else len(intfs)) for g in newg)
+                             and len({tuple(g) for g in newg}) == len(newg))
+                    if out == ["done"]:
+                        if not valid:
+                            return None
+                        del sh.eqs[name]
+                        sh.eqs[name] = (opid, newg, newi)     # moves to the end
+                        full = None
+                    elif valid:
+                        return where + f"a well-formed update_equation was rejected: {out}"
+                    else:
+                        del sh.eqs[name]      # removed, then set_equation failed
+                        full = None
+                elif out == ["done"]:
+                    return where + "update of an unknown equation was accepted"
+                if ind != prev_ind:
+                    return where + "update_equation changed assembled_equation_indices"
+            elif o[0] == "schur":
+                kept = sh.kept(o[1])
+                if out == ["done"] and kept != "invalid":
+                    _, lens = sh.rows(kept)
+                    pos, exp_ind = 0, []
+                    for n, ln in lens:
+                        exp_ind.append([n, list(range(pos, pos + ln))])
+                        pos += ln
+                    if ind != exp_ind:
+                        return where + ("assembled_equation_indices after the Schur assembly "
+                                        f"{str(ind)[:200]}, expected the rows of the primary "
+                                        f"block per primary equation {str(exp_ind)[:200]}")
             else:
-                _, jac, a, refs = o
+                _, jac, a, refs = o[:4]
                 sized = all(case["operators"][sh.eqs[n][0]]["rows"] == sh.size(n)
                             for n in sh.eqs)
                 if not sized:
@@ -685,6 +818,8 @@ class C06(Prop):
                     f"({cnat(info[0])}, {cnat(info[1])}, {cnat(info[2])})")
         if o[0] == "remove":
             return f"ERemove {cnat(o[1])}"
+        if o[0] == "schur":
+            raise ValueError("schur op has no eop form")
         return f"EAssemble {cbool(o[1])} {self._eqarg_c(o[2])} {_C05._crefs(o[3])}"
 
     @staticmethod
@@ -731,17 +866,53 @@ class C06(Prop):
         return "(" + clist(res["evals"],
                            lambda ev: clist(list(zip(ev[0], ev[1])), row)) + ")%Z"
 
+    def _sop(self, o):
+        if o[0] == "schur":
+            return f"SSchur {self._eqarg_c(o[1])} {_C05._crefs(o[2])}"
+        if o[0] == "update":
+            _, name, opid, grids, info = o
+            gs = coption(grids, lambda l: clist(l, self._dom))
+            inf = coption(info, lambda t: f"({cnat(t[0])}, {cnat(t[1])}, {cnat(t[2])})")
+            return f"SUpdate {cnat(name)} {cnat(opid)} {gs} {inf}"
+        return f"SBase ({self._eop(o)})"
+
+    def _sized_at_end(self, case, res):
+        """does every registered operator have the declared number of rows (replay of the
+        successful set / remove / update calls)"""
+        sds, intfs = case["sds"], case["intfs"]
+        eqs = {}
+        for o, (out, _ind) in zip(case["ops"], res["outs"]):
+            if o[0] == "set" and out == ["done"]:
+                eqs[o[1]] = (o[2], o[3], o[4])
+            elif o[0] == "remove" and out == ["done"]:
+                eqs.pop(o[1], None)
+            elif o[0] == "update" and o[1] in eqs:
+                _, g0, i0 = eqs[o[1]]
+                if out == ["done"]:
+                    del eqs[o[1]]
+                    eqs[o[1]] = (o[2], g0 if o[3] is None else o[3], i0 if o[4] is None else o[4])
+                elif out[0] == "err" and out[1] == "AssertErr":
+                    del eqs[o[1]]
+        for opid, grids, info in eqs.values():
+            rows = sum(gsize(sds, intfs, g[0], g[1], info) for g in {tuple(g) for g in grids})
+            if case["operators"][opid]["rows"] != rows:
+                return False
+        return True
+
     def coq_case(self, case, res):
-        return (f"agree6 {_C05._cgrid(case)} {self._vops(case)} {self._evtab(res)} "
-                f"{clist(case['ops'], self._eop)} {clist(res['outs'], self._obs)}")
+        sops = clist(case['ops'], self._sop)
+        return (f"andb (agree6s {_C05._cgrid(case)} {self._vops(case)} {self._evtab(res)} "
+                f"{sops} {clist(res['outs'], self._obs)}) "
+                f"(Bool.eqb (sized_final {_C05._cgrid(case)} {self._vops(case)} "
+                f"{self._evtab(res)} {sops}) {cbool(self._sized_at_end(case, res))})")
 
     def coq_diag(self, case, res):
         return (f"let s := final {_C05._cgrid(case)} {self._vops(case)} in "
                 f"map (fun x => match fst x with XAsm (AJac A b n) => (1, length A, n, snd x) "
                 f"| XAsm (ARes b) => (2, length b, 0, snd x) | XErr _ => (3, 0, 0, snd x) "
                 f"| _ => (0, 0, 0, snd x) end) "
-                f"(snd (erun 0%Z Z.opp (eval_of (num_dofs s) {self._evtab(res)}) "
-                f"{_C05._cgrid(case)} s einit {clist(case['ops'], self._eop)}))")
+                f"(snd (srun 0%Z Z.opp (eval_of (num_dofs s) {self._evtab(res)}) "
+                f"{_C05._cgrid(case)} s einit {clist(case['ops'], self._sop)}))")
 
     def nontrivial(self, case, res):
         sh_n = 0
@@ -752,6 +923,9 @@ class C06(Prop):
         return False
 
     def finding_key(self, case, res, why):
+        if "after the Schur assembly" in why:
+            return ("assemble_schur_complement_system: assembled_equation_indices overwritten "
+                    "by the inner assemble calls")
         return "restricted-assembly: " + (why.split(":")[1].strip()[:60] if ":" in why else why[:60])
 
     def shrink(self, case, still_fails):
